@@ -6,7 +6,12 @@ Oracles (all reproducible from a per-case seed, see C15.state_case / behaviour_c
   * behaviour: an object with a factor history vs a fresh object that got the last factor only vs members scaled directly -- compared by what
     they sample (magnitude samplers), record (ctx) and return under the same seeded rng; a second fresh copy is the control;
   * scheduled: wrapped object trees / lists / factory configs under simulated round-robin workers, per sample reported strength, parameter
-    state and behaviour equal to the wrapped transform scaled to schedule(b)."""
+    state and behaviour equal to the wrapped transform scaled to schedule(b);
+  * scheduled end to end (pipeline_case): the scheduled transform inside a transform carrying dataset wrapper (XTransformWrapper with/without
+    seed, KDMultiViewWrapper; alone / in (nested) compositions / as list), length changing wrappers below and above it, ModeWrapper on top,
+    initialised through the datasets' worker_init_fn with epochs / updates / samples (+ world_size, drop_last), in process (also on pickled /
+    deep-copied stacks and with a twin pipeline alive) and in real DataLoader workers: per sample reported strength == schedule(b of the
+    enumerated number of batches of the run) and magnitude applied by a constant-magnitude noise == m * schedule(b)."""
 import copy
 import json
 import pickle
@@ -466,6 +471,72 @@ def copy_used(t, how):
     return copy.deepcopy(t)
 
 
+# ----------------------------------------------------------------------------------------------
+# end-to-end pipelines: dataset -> wrappers (one of them carries the scheduled transform) -> ModeWrapper [-> DataLoader]
+# ----------------------------------------------------------------------------------------------
+_ROOT_DATASET = []
+
+
+def root_dataset(size):
+    """a tiny KDDataset of constant tensors (class defined once, importable by name so that instances can be pickled)"""
+    if not _ROOT_DATASET:
+        import torch
+        from kappadata.datasets import KDDataset
+
+        class PipelineRootDataset(KDDataset):
+            def __init__(self, size):
+                super().__init__()
+                self.size = size
+
+            def getitem_x(self, idx, ctx=None):
+                return torch.zeros(1, 2, 2)
+
+            def __len__(self):
+                return self.size
+        PipelineRootDataset.__module__ = __name__
+        PipelineRootDataset.__qualname__ = "PipelineRootDataset"
+        globals()["PipelineRootDataset"] = PipelineRootDataset
+        _ROOT_DATASET.append(PipelineRootDataset)
+    return _ROOT_DATASET[0](size)
+
+
+def length_changer(crng, ds):
+    """(label, ds wrapped in one of the package's length changing / reordering dataset wrappers)"""
+    import kappadata.wrappers as KW
+    from kappadata.datasets import KDSubset
+    n = len(ds)
+    kind = crng.choice(["subset", "subset-range", "repeat", "percent", "shuffle", "kdsubset"])
+    if kind == "subset":
+        k = crng.randint(max(1, n // 3), n)
+        return f"subset({k})", KW.SubsetWrapper(dataset=ds, indices=crng.sample(range(n), k))
+    if kind == "subset-range":
+        a = crng.randint(0, n // 3)
+        b = crng.randint(a + max(1, n // 3), n)
+        return f"subset[{a}:{b}]", KW.SubsetWrapper(dataset=ds, start_index=a, end_index=b)
+    if kind == "repeat":
+        r = crng.randint(2, 3)
+        return f"repeat({r})", KW.RepeatWrapper(dataset=ds, repetitions=r)
+    if kind == "percent":
+        fp, tp = crng.choice([(None, 0.5), (0.25, None), (0.25, 0.75), (None, 0.75)])
+        return f"percent({fp},{tp})", KW.PercentFilterWrapper(dataset=ds, from_percent=fp, to_percent=tp)
+    if kind == "shuffle":
+        sd = crng.randint(0, 99)
+        return f"shuffle({sd})", KW.ShuffleWrapper(dataset=ds, seed=sd)
+    k = crng.randint(max(1, n // 3), n)
+    return f"kdsubset({k})", KDSubset(ds, crng.sample(range(n), k))
+
+
+def _find_in_ctx(ctx, pred):
+    """values recorded under keys satisfying `pred` in a (possibly nested, e.g. per view) ctx"""
+    out = []
+    if isinstance(ctx, dict):
+        for k, v in ctx.items():
+            if isinstance(v, dict):
+                out += _find_in_ctx(v, pred)
+            elif pred(k):
+                out.append(v)
+    return out
+
 
 class C15(PropertyCheck):
     pid = "C15"
@@ -513,7 +584,10 @@ class C15(PropertyCheck):
                     "compositions. Behaviour oracle: object with a factor history (0/1-heavy; applied / deep-copied / pickled between factors; sibling instance "
                     "scaled in between; float or numpy factors) vs fresh object with the last factor only and vs members scaled directly: same seeded rng -> same "
                     "sampler draws, ctx, outputs; draws inside range*f, zero at 0, not collapsed. Scheduled-general: wrapped object trees / lists / factory configs, "
-                    "several schedules, per sample state + ctx + output equal to the wrapped transform scaled to schedule(b)")
+                    "several schedules, per sample state + ctx + output equal to the wrapped transform scaled to schedule(b). Scheduled-pipeline: the scheduled "
+                    "transform inside dataset wrapper stacks (transform carrier + length changing wrappers below/above + ModeWrapper), initialised via the "
+                    "datasets' worker_init_fn with epochs/updates/samples, in process (plain / pickled / deep-copied / twin pipeline) and in DataLoader "
+                    "workers (1-3): reported and applied strength per sample == schedule(b of the enumerated batches of the run)")
         rng = self.rng
         leaves = leaf_recipes(rng)
         n = 250 if self.tier == "quick" else 4000
@@ -593,6 +667,16 @@ class C15(PropertyCheck):
             res.cases += 1
             res.bump("scheduled-general")
             res.nontrivial.add(("sched-general", case_seed))
+            if f is not None and not any(g.key == f.key for g in res.failures):
+                res.failures.append(f)
+        n_loader = 6 if self.tier == "quick" else 40
+        for i in range(70 if self.tier == "quick" else 800):
+            case_seed = rng.getrandbits(31)
+            workers = (i % 3) + 1 if i < n_loader else 0
+            f = self.pipeline_case(case_seed, workers, res.bump)
+            res.cases += 1
+            res.bump("scheduled-pipeline")
+            res.nontrivial.add(("sched-pipeline", case_seed, workers))
             if f is not None and not any(g.key == f.key for g in res.failures):
                 res.failures.append(f)
         return res
@@ -920,6 +1004,210 @@ class C15(PropertyCheck):
         return None
 
 
+    # ---- scheduled transform end to end: inside a dataset wrapper stack, initialised through the datasets' worker_init_fn ----------
+    @staticmethod
+    def build_pipeline(case_seed, scheduled=True):
+        """dataset -> [length changer] -> transform carrying wrapper -> [length changers] -> ModeWrapper, reproducible from case_seed.
+        scheduled=False builds the same stack with the wrapped transform used directly (the control for exceptions)."""
+        import kappadata.transforms as T
+        import kappadata.wrappers as KW
+        crng = random.Random(f"pipe-build:{case_seed}")
+        ds = root_dataset(crng.randint(8, 30))
+        labels = [f"root({len(ds)})"]
+        if crng.random() < 0.3:
+            lbl, ds = length_changer(crng, ds)
+            labels.append(lbl)
+        m = crng.choice([0.5, 0.75, 1.0])
+        # constant magnitude: the recorded magnitude IS the strength that was applied to the sample (times m)
+        noise = T.KDAdditiveGaussianNoise(std=1., magnitude=m, magnitude_std=0.)
+        sched_cfg = crng.choice([None, None, dict(kind="linear_increasing_schedule"), dict(kind="linear_decreasing_schedule"),
+                                 dict(kind="cosine_increasing_schedule")])
+        sched = T.KDScheduledTransform(noise, schedule=copy.deepcopy(sched_cfg)) if scheduled else noise
+        form = crng.choice(["bare", "compose", "list", "compose2", "nested"])
+        if form == "bare":
+            transform = sched
+        elif form == "compose":
+            transform = T.KDComposeTransform([sched])
+        elif form == "list":
+            transform = [sched]
+        elif form == "compose2":
+            transform = T.KDComposeTransform([T.KDAdditiveUniformNoise(magnitude=0.5), sched])
+        else:
+            transform = T.KDComposeTransform([T.KDComposeTransform([sched])])
+        carrier = crng.choice(["x", "x", "x-seed", "multiview"])
+        if carrier == "x":
+            ds = KW.XTransformWrapper(dataset=ds, transform=transform)
+        elif carrier == "x-seed":
+            ds = KW.XTransformWrapper(dataset=ds, transform=transform, seed=crng.randint(0, 99))
+        else:
+            ds = KW.KDMultiViewWrapper(dataset=ds, configs=[(1, transform)])
+        labels.append(f"{carrier}[{form}:scheduled(noise*{m},{(sched_cfg or {}).get('kind')})]")
+        for _ in range(crng.choice([0, 1, 1, 2])):
+            lbl, ds = length_changer(crng, ds)
+            labels.append(lbl)
+        top = KW.ModeWrapper(dataset=ds, mode="x", return_ctx=True)
+        reference = copy.deepcopy(sched.schedule) if scheduled else None
+        return dict(ds=top, label=" -> ".join(labels), strength_key=getattr(sched, "ctx_key", None) if scheduled else None,
+                    applied_key=noise.ctx_key, m=m, reference=reference)
+
+    @staticmethod
+    def pipeline_run_spec(case_seed, L, workers=None):
+        """how the run is driven: batches of the run (full batches only, the property's domain) and the kwargs a user passes to
+        worker_init_fn (the package's own convention, see InterleavedSampler: dataset_len=len(dataset that is iterated))"""
+        crng = random.Random(f"pipe-run:{case_seed}")
+        Wd = 2 if (crng.random() < 0.2 and L >= 4) else 1
+        Lr = L // Wd
+        B = crng.randint(1, max(1, min(4, Lr // 2)))
+        kind = crng.choice(["epochs", "epochs", "epochs", "updates", "samples"])
+        order = list(range(Lr))
+        if crng.random() < 0.3:
+            crng.shuffle(order)
+        if kind == "epochs":
+            E = crng.randint(1, 2)
+            dl = True if (Lr % B != 0 or crng.random() < 0.5) else False
+            per_epoch = [order[i:i + B] for i in range(0, Lr, B)]
+            per_epoch = [c for c in per_epoch if len(c) == B]
+            batches = [list(c) for _ in range(E) for c in per_epoch]
+            kw = dict(batch_size=B, epochs=E, dataset_len=L, world_size=Wd, drop_last=dl)
+        else:
+            N = crng.randint(2, 8)
+            batches = [[order[(b * B + i) % Lr] for i in range(B)] for b in range(N)]
+            kw = dict(batch_size=B, dataset_len=L)
+            kw[kind] = N if kind == "updates" else N * B
+        W = workers if workers is not None else 0
+        history = crng.choice(["plain", "plain", "pickled", "deepcopied", "twin"])
+        if W > 0 and history == "twin":
+            history = "plain"
+        return dict(batches=batches, kw=kw, W=W, history=history)
+
+    @staticmethod
+    def drive_pipeline(ds, batches, kw, W, twin=None):
+        """run the pipeline; returns per global batch a list of per-sample ctx dicts (python numbers at the leaves)"""
+        def per_sample(ctx, i):
+            out = {}
+            for k, v in ctx.items():
+                if isinstance(v, dict):
+                    out[k] = per_sample(v, i)
+                else:
+                    try:
+                        out[k] = v[i].item()
+                    except Exception:
+                        out[k] = None
+            return out
+
+        if W == 0:
+            ds.worker_init_fn(0, **kw)
+            if twin is not None:
+                # a second pipeline with another length / batch size is alive and initialised / used at the same time
+                try:
+                    twin[0].worker_init_fn(0, **twin[1])
+                except Exception:
+                    twin = None
+            out = []
+            for batch in batches:
+                rows = []
+                for idx in batch:
+                    _, ctx = ds[idx]
+                    rows.append(ctx)
+                out.append(rows)
+                if twin is not None:
+                    try:
+                        twin[0][len(out) % len(twin[0])]
+                    except Exception:
+                        pass
+            return out
+        from functools import partial
+        from torch.utils.data import DataLoader
+        loader = DataLoader(ds, batch_sampler=batches, num_workers=W, worker_init_fn=partial(ds.worker_init_fn, **kw))
+        out = []
+        for (_, ctx), batch in zip(loader, batches):
+            out.append([per_sample(ctx, i) for i in range(len(batch))])
+        return out
+
+    def pipeline_case(self, case_seed, workers=None, stats=None):
+        """One end-to-end case, reproducible from (case_seed, workers): the scheduled transform sits inside a transform carrying dataset
+        wrapper (alone / in compositions / as list), length changing wrappers below and above it, ModeWrapper on top; the run is
+        initialised the way a user does it (top.worker_init_fn(rank, batch_size=..., epochs/updates/samples=..., dataset_len=len(top),
+        ...)) in process or in real DataLoader workers. The batches of the run are enumerated by the harness; for every sample of global
+        batch b: the reported strength is schedule(b of <number of batches of the run>) and the magnitude applied by the wrapped
+        constant-magnitude noise is m * schedule(b). A pipeline that raises where the same stack without the schedule works is a failure."""
+        inp = {"oracle": "pipeline", "case_seed": case_seed, "workers": workers}
+        try:
+            p = self.build_pipeline(case_seed)
+            L = len(p["ds"])
+            if L < 2:
+                return None
+            spec = self.pipeline_run_spec(case_seed, L, workers)
+        except Exception as e:
+            if stats is not None:
+                stats(f"pipeline:not-constructible:{type(e).__name__}")
+            return None
+        batches, kw, W, history = spec["batches"], spec["kw"], spec["W"], spec["history"]
+        n_true = len(batches)
+        inp.update(pipeline=p["label"], len=L, init_kwargs=kw, n_batches_of_run=n_true, num_workers=W, history=history)
+        try:
+            table = [p["reference"].get_value(b, n_true) for b in range(n_true)]
+        except Exception:
+            return None
+        if n_true == 0 or not all(0. <= v <= 1. for v in table):
+            return None
+
+        def prepared(q, seed):
+            ds, twin = q["ds"], None
+            if history == "pickled":
+                ds = copy_used(ds, "pickle")
+            elif history == "deepcopied":
+                ds = copy_used(ds, "deepcopy")
+            elif history == "twin":
+                try:
+                    t = self.build_pipeline(seed + 1)
+                    tspec = self.pipeline_run_spec(seed + 1, len(t["ds"]), 0)
+                    twin = (t["ds"], tspec["kw"])
+                except Exception:
+                    twin = None
+            return ds, twin
+
+        try:
+            ds, twin = prepared(p, case_seed)
+            got = self.drive_pipeline(ds, batches, kw, W, twin)
+        except Exception as e:
+            # raised by the code under test: judged against the same stack without the schedule
+            try:
+                c = self.build_pipeline(case_seed, scheduled=False)
+                cds, ctwin = prepared(c, case_seed)
+                self.drive_pipeline(cds, batches, kw, W, ctwin)
+            except Exception as e2:
+                if stats is not None:
+                    stats(f"pipeline:control-raises:{type(e2).__name__}")
+                return None
+            return Failure("scheduled-pipeline:raises", f"{p['label']}: the run ({n_true} full batches, num_workers={W}, {kw}) raises "
+                           f"{type(e).__name__} although the same stack without the schedule works", inp, "no exception",
+                           f"{type(e).__name__}: {str(e).strip().splitlines()[-1] if str(e).strip() else ''}"[:300])
+        if stats is not None:
+            stats(f"pipeline:W={W}")
+            stats(f"pipeline:{[k for k in ('epochs', 'updates', 'samples') if k in kw][0]}")
+            stats(f"pipeline:{history}")
+        if len(got) != n_true:
+            return None
+        sk, ak, m = p["strength_key"], p["applied_key"], p["m"]
+        for b, rows in enumerate(got):
+            expected = table[b]
+            for s_, ctx in enumerate(rows):
+                reported = _find_in_ctx(ctx, lambda k: k == sk)
+                if not reported:
+                    reported = _find_in_ctx(ctx, lambda k: str(k).endswith(".strength"))
+                where = dict(inp, b=b, s=s_)
+                if len(reported) != 1 or not isinstance(reported[0], float) or abs(reported[0] - expected) > 1e-12:
+                    return Failure("scheduled-pipeline:strength", f"{p['label']}: sample {s_} of global batch {b} of {n_true} reports strength "
+                                   f"{reported}, schedule({b} of {n_true})={expected} (num_workers={W}, init kwargs {kw})", where, expected, reported)
+                applied = _find_in_ctx(ctx, lambda k: k == ak)
+                if len(applied) == 1 and isinstance(applied[0], float) and abs(applied[0] - m * expected) > 1e-12:
+                    return Failure("scheduled-pipeline:applied", f"{p['label']}: sample {s_} of global batch {b} of {n_true}: the wrapped noise "
+                                   f"(magnitude {m}) is applied with magnitude {applied[0]}, schedule({b} of {n_true}) * {m} = {m * expected} "
+                                   f"(num_workers={W}, init kwargs {kw})", where, m * expected, applied[0])
+        return None
+
+
     # ---- scheduled transform ----------------------------------------------------------------
     def scheduled(self, res):
         import kappadata.transforms as T
@@ -1147,7 +1435,8 @@ class C15(PropertyCheck):
             for i in range(60):
                 if out or time.time() - t0 > budget_s:
                     break
-                f = self.behaviour_case(rng.getrandbits(31), i + 60 * rounds if rounds < 2 else None) or self.sched_case(rng.getrandbits(31))
+                f = self.behaviour_case(rng.getrandbits(31), i + 60 * rounds if rounds < 2 else None) or self.sched_case(rng.getrandbits(31)) \
+                    or self.pipeline_case(rng.getrandbits(31), 0)
                 if f:
                     out.append(f)
             rounds += 1
@@ -1176,6 +1465,8 @@ class C15(PropertyCheck):
             return self.behaviour_case(inp["case_seed"], inp.get("forced"))
         if inp.get("oracle") == "scheduled":
             return self.sched_case(inp["case_seed"])
+        if inp.get("oracle") == "pipeline":
+            return self.pipeline_case(inp["case_seed"], inp.get("workers"))
         rng = random.Random(1)
         for label, thunk in leaf_recipes(rng):
             if label == inp.get("tree"):
